@@ -10,4 +10,6 @@ MODS=$(python3 -c "import sys; sys.path.insert(0,'tools'); import props; print('
 (cd lean && lake build driver $MODS)
 cp -n /repo/Cargo.lock harness/Cargo.lock 2>/dev/null || true
 (cd harness && cargo build --release --offline)
+# the real binary (C12: plain; C17: with the headless hook), built from /repo's working tree
+(cd /repo && cargo build --release --offline -p emulator-2a --target-dir /verif/harness/target-bin)
 echo "setup ok"
